@@ -1,9 +1,13 @@
 import Req.Client.Compress
 import Req.Client.CompressLegacy
+import Req.Client.CompressToy
+import Req.Lemmas.C14Readers
 /-!
 C14 — property theorems, part 1: the decision (who asks for gzip, when a response is decoded,
 what is rewritten, that the three protocol stacks are one function, that a body reader always
-exists). Part 2 (readers: read-size independence, sticky errors) is `Req.Props.C14Readers`.
+exists); part 2: the readers (read-size independence, version independence, sticky errors,
+original payload under the codec's round-trip law), over abstract codecs with the streaming
+law, instantiated with the toy codec of `Req/Client/CompressToy.lean`.
 
 All statements are for every request configuration, every header list and every
 `Content-Encoding` byte string.
@@ -420,5 +424,204 @@ theorem legacy_differs_only (s : Site) (c : ReqCfg) (auto hasBody : Bool) (r : R
           have hf' : isGzipFold tokGzip = true := by decide
           simp [hg, heq, hf', Legacy.applyAction, applyAction] at hne
     · right; left; exact ⟨rfl, rfl⟩
+
+/-! ## Part 2 — the readers -/
+
+/-- A reader together with its current state. -/
+structure Running where
+  R : Reader
+  s : R.σ
+
+/-- The reader object the caller finds in `Response.Body`, over the framing-level body `src`:
+`raw` = that body itself; `gunzip` = `transport.go gzipReader` on HTTP/1.1 and
+`compress.GzipReader` on HTTP/2 and HTTP/3; `decode a` = the lazy reader of `a`. -/
+def bodyReader (codecs : Alg → Codec) (site : Site) (src : Src) : BodyKind → Running
+  | .raw => ⟨rawReader, (src.data, src.fin)⟩
+  | .gunzip =>
+    match site with
+    | .h1 => ⟨h1GzipReader (codecs .gzip), H1GzState.init src⟩
+    | _ => ⟨lazyReader (codecs .gzip), LazyState.init src⟩
+  | .decode a => ⟨lazyReader (codecs a), LazyState.init src⟩
+
+/-- What the body means, independently of how it is read and of the stack. -/
+def delivered (codecs : Alg → Codec) (src : Src) (k : BodyKind) : Bytes × Term :=
+  deliver (src.data, src.fin) (fun a => (codecs a).total src) k
+
+theorem bodyReader_rest (codecs : Alg → Codec) (site : Site) (src : Src) (k : BodyKind) :
+    (bodyReader codecs site src k).R.rest (bodyReader codecs site src k).s = delivered codecs src k := by
+  cases k with
+  | raw => rfl
+  | gunzip => cases site <;> rfl
+  | decode a => rfl
+
+/-- **read_size_independent** — for every codec satisfying the streaming law, every body,
+every stack and EVERY sequence of `Read` buffer sizes: once a `Read` returns an error
+(`io.EOF` included) the concatenation of everything returned is the whole meaning of the body
+and the error is its end — neither depends on the sizes. -/
+theorem read_size_independent (codecs : Alg → Codec) (site : Site) (src : Src) (k : BodyKind)
+    (ns : List Nat) (t : Term)
+    (h : (drain (bodyReader codecs site src k).R (bodyReader codecs site src k).s ns).2.2 = some t) :
+    ((drain (bodyReader codecs site src k).R (bodyReader codecs site src k).s ns).2.1, t)
+      = delivered codecs src k := by
+  have := drain_spec (bodyReader codecs site src k).R (bodyReader codecs site src k).s ns
+  rw [h] at this
+  rw [← bodyReader_rest codecs site src k, this.1]
+
+/-- two read schedules, two stacks: same bytes, same final error -/
+theorem read_size_and_version_independent (codecs : Alg → Codec) (s₁ s₂ : Site) (src : Src)
+    (k : BodyKind) (ns₁ ns₂ : List Nat) (t₁ t₂ : Term)
+    (h₁ : (drain (bodyReader codecs s₁ src k).R (bodyReader codecs s₁ src k).s ns₁).2.2 = some t₁)
+    (h₂ : (drain (bodyReader codecs s₂ src k).R (bodyReader codecs s₂ src k).s ns₂).2.2 = some t₂) :
+    (drain (bodyReader codecs s₁ src k).R (bodyReader codecs s₁ src k).s ns₁).2.1 =
+      (drain (bodyReader codecs s₂ src k).R (bodyReader codecs s₂ src k).s ns₂).2.1 ∧ t₁ = t₂ := by
+  have a := read_size_independent codecs s₁ src k ns₁ t₁ h₁
+  have b := read_size_independent codecs s₂ src k ns₂ t₂ h₂
+  have := a.trans b.symm
+  exact ⟨congrArg (fun x => x.1) this, congrArg (fun x => x.2) this⟩
+
+/-- before the end, what has been returned is a prefix of the meaning (no garbage, nothing
+skipped) -/
+theorem partial_reads_are_prefix (codecs : Alg → Codec) (site : Site) (src : Src) (k : BodyKind)
+    (ns : List Nat) :
+    (drain (bodyReader codecs site src k).R (bodyReader codecs site src k).s ns).2.1
+      <+: (delivered codecs src k).1 := by
+  have := drain_spec (bodyReader codecs site src k).R (bodyReader codecs site src k).s ns
+  rw [← bodyReader_rest codecs site src k]
+  cases h : (drain (bodyReader codecs site src k).R (bodyReader codecs site src k).s ns).2.2 with
+  | none => rw [h] at this; rw [this]; exact List.prefix_append _ _
+  | some t => rw [h] at this; rw [this.1]; exact List.prefix_refl _
+
+/-- reading with non-empty buffers always reaches the end (no livelock): more reads than
+bytes suffice -/
+theorem reads_finish (codecs : Alg → Codec) (site : Site) (src : Src) (k : BodyKind)
+    (ns : List Nat) (hpos : ∀ n ∈ ns, 0 < n) (hlen : (delivered codecs src k).1.length < ns.length) :
+    (drain (bodyReader codecs site src k).R (bodyReader codecs site src k).s ns).2.2 ≠ none := by
+  apply drain_finishes _ _ _ hpos
+  rw [bodyReader_rest]; exact hlen
+
+/-- **sticky_error** — after the first `Read` that returned an error, every later `Read` (with
+a non-empty buffer) returns no data and the same error. -/
+theorem sticky_error (codecs : Alg → Codec) (site : Site) (src : Src) (k : BodyKind)
+    (ns : List Nat) (t : Term)
+    (h : (drain (bodyReader codecs site src k).R (bodyReader codecs site src k).s ns).2.2 = some t)
+    (ms : List Nat) (hpos : ∀ m ∈ ms, 0 < m) :
+    ∀ m ∈ ms, ∀ pre, pre ++ [m] <+: ms →
+      ((bodyReader codecs site src k).R.read
+        (pre.foldl (fun s n => ((bodyReader codecs site src k).R.read s n).1)
+          (drain (bodyReader codecs site src k).R (bodyReader codecs site src k).s ns).1) m).2
+        = ([], some t) := by
+  have hd := drain_spec (bodyReader codecs site src k).R (bodyReader codecs site src k).s ns
+  rw [h] at hd
+  have hend := hd.2
+  generalize (drain (bodyReader codecs site src k).R (bodyReader codecs site src k).s ns).1 = s0 at hend
+  intro m _ pre hpre
+  have hall : ∀ x ∈ pre ++ [m], 0 < x := fun x hx => hpos x (hpre.subset hx)
+  clear hpre
+  induction pre generalizing s0 with
+  | nil => exact (read_after_end _ s0 t hend m (hall m (by simp))).1
+  | cons p pre ih =>
+    simp only [List.foldl_cons]
+    apply ih
+    · exact (read_after_end _ s0 t hend p (hall p (by simp))).2
+    · intro x hx; exact hall x (by simp only [List.cons_append, List.mem_cons]; exact Or.inr hx)
+
+/-- a constructor error (`gzip.NewReader`: bad magic, truncated member header, error of the
+underlying body) is returned by the first `Read` and by every later one, whatever the buffer
+sizes (zero included), and no byte is ever produced -/
+theorem constructor_error_sticky (C : Codec) (src : Src) (e : Term) (h : C.openR src = .error e)
+    (ns : List Nat) :
+    lazyRun C (LazyState.init src) (ns.map Op.read) = ns.map (fun _ => ([], some e)) ∧
+    h1gzRun C (H1GzState.init src) (ns.map Op.read) = ns.map (fun _ => ([], some e)) := by
+  cases ns with
+  | nil => simp [lazyRun, h1gzRun]
+  | cons n ns =>
+    have hl : ∀ (st : LazyState C), st.zerr = some e → ∀ ms : List Nat,
+        lazyRun C st (ms.map Op.read) = ms.map (fun _ => ([], some e)) := by
+      intro st hz ms
+      induction ms with
+      | nil => simp [lazyRun]
+      | cons m ms ih => simp [lazyRun, lazyRead, hz, ih]
+    have hh : ∀ (st : H1GzState C), st.inner = none → st.zerr = some e → ∀ ms : List Nat,
+        h1gzRun C st (ms.map Op.read) = ms.map (fun _ => ([], some e)) := by
+      intro st hi hz ms
+      induction ms with
+      | nil => simp [h1gzRun]
+      | cons m ms ih => simp [h1gzRun, h1gzRead, hi, hz, ih]
+    constructor
+    · simp only [List.map_cons, lazyRun, lazyRead, LazyState.init, h]
+      rw [hl _ rfl]
+    · simp only [List.map_cons, h1gzRun, h1gzRead, H1GzState.init, h, Bool.false_eq_true, if_false]
+      rw [hh _ rfl rfl]
+
+/-- `GzipReader.Close` then `Read`: `fs.ErrClosed`, always, no data -/
+theorem closed_sticky (C : Codec) (st : LazyState C) (ns : List Nat) :
+    lazyRun C st (Op.close :: ns.map Op.read) = ns.map (fun _ => ([], some errClosed)) := by
+  simp only [lazyRun]
+  have : ∀ (st : LazyState C), st.zerr = some errClosed →
+      lazyRun C st (ns.map Op.read) = ns.map (fun _ => ([], some errClosed)) := by
+    intro st hz
+    induction ns with
+    | nil => simp [lazyRun]
+    | cons m ms ih => simp [lazyRun, lazyRead, hz, ih]
+  exact this _ rfl
+
+/-- **delivered_original** — end to end: whenever the decision installs a decoder and the body
+is the encoding of a payload under a codec with the round-trip law, the caller reads exactly
+that payload followed by a clean EOF, for every read schedule and on every stack; whenever it
+does not, exactly the bytes received. -/
+theorem delivered_original (codecs : Alg → Codec) (enc : Alg → Bytes → Bytes)
+    (hrt : ∀ a p, (codecs a).total ⟨enc a p, .eof⟩ = (p, .eof))
+    (s : Site) (c : ReqCfg) (auto hasBody : Bool) (r : Resp) (k : BodyKind)
+    (hk : (process s c auto hasBody r).body = some k) (payload wire : Bytes)
+    (hw : wire = match k with
+      | .raw => payload | .gunzip => enc .gzip payload | .decode a => enc a payload)
+    (ns : List Nat) (t : Term)
+    (h : (drain (bodyReader codecs s ⟨wire, .eof⟩ k).R (bodyReader codecs s ⟨wire, .eof⟩ k).s ns).2.2 = some t) :
+    (drain (bodyReader codecs s ⟨wire, .eof⟩ k).R (bodyReader codecs s ⟨wire, .eof⟩ k).s ns).2.1 = payload
+      ∧ t = .eof := by
+  have := read_size_independent codecs s ⟨wire, .eof⟩ k ns t h
+  have hd : delivered codecs ⟨wire, .eof⟩ k = (payload, .eof) := by
+    subst hw
+    cases k <;> simp [delivered, deliver, hrt]
+  rw [hd] at this
+  exact ⟨congrArg Prod.fst this, congrArg Prod.snd this⟩
+
+/-- **corrupt_yields_error** — if the codec's meaning of the body ends in an error (corrupt or
+truncated stream, error of the underlying body) then no read schedule ends in a clean EOF:
+the caller always sees that error, after a prefix of the meaning. -/
+theorem corrupt_yields_error (codecs : Alg → Codec) (site : Site) (src : Src) (k : BodyKind)
+    (e : Nat) (he : (delivered codecs src k).2 = .err e) (ns : List Nat) (t : Term)
+    (h : (drain (bodyReader codecs site src k).R (bodyReader codecs site src k).s ns).2.2 = some t) :
+    t = .err e := by
+  have := read_size_independent codecs site src k ns t h
+  rw [← he, ← this]
+
+/-! ### non-vacuity: the toy codec inhabits the parameter -/
+
+def toyCodecs : Alg → Codec := fun _ => Toy.codec
+
+/-- the round-trip hypothesis of `delivered_original` is satisfiable -/
+theorem toy_roundtrip_law : ∀ (a : Alg) (p : Bytes),
+    (toyCodecs a).total ⟨Toy.encode p, .eof⟩ = (p, .eof) := fun _ p => Toy.roundtrip p
+
+-- payload [7,7,7,9] encoded as runs 3×7, 1×9, end: read with buffers 1,2,5,1 / 4,4 / 2,2,2 on
+-- two different stacks
+example :
+    (drain (bodyReader toyCodecs .h1 ⟨[3, 7, 1, 9, 0], .eof⟩ .gunzip).R
+      (bodyReader toyCodecs .h1 ⟨[3, 7, 1, 9, 0], .eof⟩ .gunzip).s [1, 2, 5, 1]).2
+      = ([7, 7, 7, 9], some .eof) := by decide
+example :
+    (drain (bodyReader toyCodecs .h3 ⟨[3, 7, 1, 9, 0], .eof⟩ (.decode .br)).R
+      (bodyReader toyCodecs .h3 ⟨[3, 7, 1, 9, 0], .eof⟩ (.decode .br)).s [4, 4]).2
+      = ([7, 7, 7, 9], some .eof) := by decide
+-- truncated after the first run: the data so far, then unexpected EOF, and it sticks
+example :
+    (drain (bodyReader toyCodecs .h2 ⟨[3, 7, 1], .eof⟩ .gunzip).R
+      (bodyReader toyCodecs .h2 ⟨[3, 7, 1], .eof⟩ .gunzip).s [2, 2, 2]).2
+      = ([7, 7, 7], some (.err 1)) := by decide
+example :
+    lazyRun Toy.codec (LazyState.init ⟨[3, 7, 1], .eof⟩) [.read 2, .read 2, .read 2, .read 1, .close, .read 1]
+      = [([7, 7], none), ([7], some (.err 1)), ([], some (.err 1)), ([], some (.err 1)), ([], some (.err 3))] := by
+  decide
 
 end Req.Props.C14
